@@ -4,6 +4,7 @@ import Qryn.Prom.Select
 import Qryn.Prof.Selector
 import Qryn.Prom.Stepped
 import Qryn.Prom.Downsample
+import Qryn.Prom.Labels
 /-! Line protocol for C17.
     `c17cursor <samples> <ops>` — samples `ts:v,ts:v,…` (`-` = empty slice), ops `n` (Next), `a` (At),
     `s<t>` (Seek t) comma separated; answer: outputs in call order, `T`/`F`/`ts:v`/`!` (fault), comma separated.
@@ -20,6 +21,13 @@ import Qryn.Prom.Downsample
     64-bit shift) over `time_series_gin` rows `date~key~val~fp~type` (hex strings, decimal fp/type; `_` = no rows);
     `matches` = the `(pattern, value)` pairs `hexpat~hexval` on which ClickHouse `match` is true (`_` = none); answer:
     the selected fingerprints ascending, `-` = none.
+    `c17lblsql names|values|series <table> <hex fromDate> <hex toDate> <type> <limit> <hex name|-> <selectors>` — the statement of
+    `/api/v1/labels`, `/api/v1/label/<name>/values`, `/api/v1/series`; selectors = `match[]` entries separated by `;`, each a
+    comma list of matchers as for `c17fpsql`; `-` = no `match[]`; answer: hex of the whole statement, or `unsupported`.
+    `c17lbleval names|values|series <hex fromDate> <hex toDate> <type> <limit> <hex name|-> <selectors> <idx rows> <ts rows> <matches>` —
+    the meaning of that statement (`Prom.Labels.*Eval` over `FpUnion.eval`, 64-bit shift): index rows as for `c17fpeval`,
+    `time_series` rows `date~fp~labels~type` (hex date / labels); answer: the hex strings returned, in order, comma separated
+    (`-` = none).
     `c17scan <fromNs> <toNs>` — hex of the two bounds of the raw-sample scan as rendered.
     `c17profsql <table> <hex fromDate> <hex toDate> <selectors>` — selectors `eq|ne|re|nre:<hex name>:<hex value>[:e]`
     (`:e` = Go's regexp finds the anchored pattern in the empty string);
@@ -151,6 +159,70 @@ def fpEval (date tp ms rows tbl : String) : Option String := do
   | some q =>
     let fps := (q.eval (fun pat v => tbl.contains (pat, v)) 64 rows).mergeSort (fun a b => decide (a ≤ b))
     some (if fps.isEmpty then "-" else ",".intercalate (fps.map toString))
+
+/-! ### labels / label values / series -/
+def parseSels (s : String) : Option (Option (List (List (Qryn.Prom.Matcher × Bool)))) :=
+  if s = "-" then some none
+  else (allSome ((s.splitOn ";").map (fun sel => allSome ((parseList sel).map parseMatcher)))).map some
+
+def unionOf (table : String) (d : Qryn.Bytes) (tp : Int) (sels : Option (List (List (Qryn.Prom.Matcher × Bool)))) :
+    Option (Option Qryn.Prom.Labels.FpUnion) :=
+  match sels with
+  | none => some none
+  | some ss =>
+    (Qryn.Prom.Labels.fpUnion (fullOf ss.flatten) table d tp (ss.map (·.map (·.1)))).map some
+
+def lblSql (kind table d1 d2 tp limit name sels : String) : Option String := do
+  let d1 ← Qryn.ofHex d1
+  let d2 ← Qryn.ofHex d2
+  let tp ← tp.toInt?
+  let limit ← limit.toNat?
+  let name ← if name = "-" then some [] else Qryn.ofHex name
+  let sels ← parseSels sels
+  let gin := "time_series_gin"
+  let w : Qryn.Prom.Labels.Win := ⟨d1, d2, tp⟩
+  match unionOf gin d1 tp sels with
+  | none => some "unsupported"
+  | some u =>
+    if kind = "names" then some (Qryn.hexOut (Qryn.Prom.Labels.namesRender table w u))
+    else if kind = "values" then some (Qryn.hexOut (Qryn.Prom.Labels.valuesRender table w limit name u))
+    else if kind = "series" then
+      match u with
+      | some u => some (Qryn.hexOut (Qryn.Prom.Labels.seriesRender table w limit u))
+      | none => some "unsupported"
+    else none
+
+def parseTsRow (s : String) : Option Qryn.Prom.Labels.TsRow :=
+  match s.splitOn "~" with
+  | [d, fp, l, tp] => do
+    let d ← Qryn.ofHex d
+    let fp ← fp.toNat?
+    let l ← Qryn.ofHex l
+    let tp ← tp.toInt?
+    some ⟨d, fp, l, tp⟩
+  | _ => none
+
+def lblEval (kind d1 d2 tp limit name sels rows ts tbl : String) : Option String := do
+  let d1 ← Qryn.ofHex d1
+  let d2 ← Qryn.ofHex d2
+  let tp ← tp.toInt?
+  let limit ← limit.toNat?
+  let name ← if name = "-" then some [] else Qryn.ofHex name
+  let sels ← parseSels sels
+  let rows ← allSome ((splitList "," rows).map parseIdxRow)
+  let ts ← allSome ((splitList "," ts).map parseTsRow)
+  let tbl ← parsePairs tbl
+  let w : Qryn.Prom.Labels.Win := ⟨d1, d2, tp⟩
+  match unionOf "time_series_gin" d1 tp sels with
+  | none => some "unsupported"
+  | some u =>
+    let fps := u.map (fun u => u.eval (fun pat v => tbl.contains (pat, v)) 64 rows)
+    let out ←
+      if kind = "names" then some (Qryn.Prom.Labels.namesEval w fps rows)
+      else if kind = "values" then some (Qryn.Prom.Labels.valuesEval w limit name fps rows)
+      else if kind = "series" then fps.map (fun f => Qryn.Prom.Labels.seriesEval w limit f ts)
+      else none
+    some (if out.isEmpty then "-" else ",".intercalate (out.map Qryn.hexOut))
 
 def parseSelector (s : String) : Option (Qryn.Prof.Selector × Bool) :=
   let parts := s.splitOn ":"
@@ -285,6 +357,8 @@ def handle : List String → Option String
   | ["c17select", rows, keys] => selectOp rows keys
   | ["c17profsql", table, d1, d2, sels] => profsql table d1 d2 sels
   | ["c17fpeval", date, tp, ms, rows, tbl] => fpEval date tp ms rows tbl
+  | ["c17lblsql", kind, table, d1, d2, tp, limit, name, sels] => lblSql kind table d1 d2 tp limit name sels
+  | ["c17lbleval", kind, d1, d2, tp, limit, name, sels, rows, ts, tbl] => lblEval kind d1 d2 tp limit name sels rows ts tbl
   | ["c17fpsql", table, date, tp, ms] => fpsql table date tp ms
   | ["c17scan", a, b] => match a.toInt?, b.toInt? with
     | some a, some b => some (Qryn.hexOut (Qryn.Prom.renderScan a b))
